@@ -10,7 +10,7 @@ import numpy as np
 ID = "C11"
 PROPS_FILE = "theories/Props/C11.v"
 EXTRACT = ("theories/Extract/XC11.v", "c11", ["entry_run", "entry_ref", "entry_check", "entry_fmul", "entry_fmul32", "entry_otsu",
-                                               "entry_geom", "entry_check_po", "entry_check_blocks", "entry_robust", "entry_mct"])
+                                               "entry_geom", "entry_check_po", "entry_check_blocks", "entry_robust", "entry_mct", "entry_rc"])
 PYX = {}
 CASE_TIMEOUT = 120
 METHODS = ["Otsu", "MoG", "Background", "RobustBackground", "RidlerCalvard", "Kapur", "MCT"]
@@ -372,6 +372,13 @@ def generate(ctx):
     for _ in range(ctx.n(90, 1500)):
         cases.append(_body_case(rng, "rob"))
         cases.append(_body_case(rng, "mct"))
+    for _ in range(ctx.n(40, 600)):
+        c = _body_case(rng, "mct")
+        c["ints"] = c["ints"][:100]
+        c.pop("bins")
+        c["fn"] = "rc"
+        c["ints"] = [v + 1 for v in c["ints"]]        # strictly positive intensities (log)
+        cases.append(c)
     if not ctx.quick():
         cases.extend(_branch_cases(ctx))          # quick: only in the search after a broken obligation
     for c in cases:
@@ -747,10 +754,12 @@ def impl(case):
         o2 = _outcome(lambda: call(im2))
         return {"det": _same_outcome(o1, o1b), "ni": _same_outcome(o1, o2), "n_out": int((~mask).sum()),
                 "values": [float(o[2]) if o[0] == "ok" else o[1] for o in (o1, o1b, o2)]}
-    if case["fn"] in ("rob", "mct"):
+    if case["fn"] in ("rob", "mct", "rc"):
         import centrosome.threshold as T
         x = (np.array(case["ints"], float) / float(1 << case["bits"])).reshape(1, -1)
-        if case["fn"] == "rob":
+        if case["fn"] == "rc":
+            f = lambda im, mk: T.get_ridler_calvard_threshold(im, mk)
+        elif case["fn"] == "rob":
             f = lambda im, mk: T.get_robust_background_threshold(im, mk, case["lof"], case["uof"], case["dev"])
         else:
             f = lambda im, mk: T.get_maximum_correlation_threshold(im, mk, case["bins"])
@@ -839,9 +848,24 @@ def model(ctx, cases, outs):
               [cases[k]["ints"], cases[k]["bins"]] for k in bi_]
         for k, r in zip(bi_, ctx.run_model(entry, ba)):
             res[k] = r
-            if fn == "mct" and len(r) == 5 and r[4] != [] and _fr(r[3]) - _fr(r[4][0]) <= Fraction(1, 10 ** 6) * max(
-                    _fr(r[3]), Fraction(1, 10 ** 12)):
+            if fn == "mct" and _mct_tied(r):
                 ctx.count("mct_argmax_illconditioned_not_compared")
+    ri = [k for k, c in enumerate(cases) if c["fn"] == "rc" and not _bad(outs[k]) and len(set(c["ints"])) >= 2
+          and len(c["ints"]) >= 3]
+    ra, oa = [], []
+    for k in ri:
+        ints, D, delta, lo, hi = _rc_args(cases[k])
+        ra.append([ints, [delta.numerator, delta.denominator], 200])
+        oa.append(ints)
+    for k, r, ot in zip(ri, ctx.run_model("entry_rc", ra) if ri else [], ctx.run_model("entry_otsu", oa) if ri else []):
+        res[k] = [r[0], r[1], ot]
+        if _tied(ot):
+            ctx.count("rc_initial_otsu_tied_not_compared")
+        elif r[0] == []:
+            ctx.count("rc_model_not_converged_or_nan")
+    for k, c in enumerate(cases):
+        if c["fn"] == "rc" and res[k] is None:
+            res[k] = [[], [], None]
     fi = [k for k, c in enumerate(cases) if c["fn"] == "fmul"]
     fa = [[_q(cases[k]["a"]), _q(cases[k]["b"])] for k in fi]
     for k, r, r32 in zip(fi, ctx.run_model("entry_fmul", fa), ctx.run_model("entry_fmul32", fa)):
@@ -879,6 +903,56 @@ def _cmp_run(out, m):
     return None
 
 
+def _mct_tied(m):
+    if len(m) != 3 or m[2] == []:
+        return False
+    best, second = _fr(m[1]), _fr(m[2][0])
+    return best - second <= Fraction(1, 10 ** 6) * max(best, Fraction(1, 10 ** 12))
+
+
+def _rc_pre(x):
+    """the pre-processing of get_ridler_calvard_threshold, as written (NumPy log): the stretched data"""
+    c = np.array(x, float).copy()
+    mv = np.max(c) / 256
+    c[c < mv] = mv
+    im = np.log(c)
+    lo, hi = np.min(im), np.max(im)
+    return (im - lo) / (hi - lo), float(lo), float(hi)
+
+
+def _rc_args(case):
+    x = np.array(case["ints"], float) / float(1 << case["bits"])
+    im, lo, hi = _rc_pre(x)
+    fr = [Fraction(float(v)) for v in im]
+    D = max(f.denominator for f in fr)
+    ints = [int(f * D) for f in fr]
+    delta = Fraction(0.00001) * D
+    return ints, D, delta, lo, hi
+
+
+def _cmp_rc(case, out, m):
+    if _bad(out):
+        return "rc reference case raised/crashed: %s" % (str(out)[:200],)
+    v = case["ints"]
+    t = out["t"]
+    if len(v) < 3:
+        return None if t == 0 else "Ridler-Calvard with fewer than 3 pixels: %r, expected 0" % t
+    if min(v) == max(v):
+        return None if Fraction(t) == Fraction(v[0], 1 << case["bits"]) else "Ridler-Calvard on constant data: %r" % t
+    res, iters, ot = m
+    if _tied(ot) or res == []:
+        return None                                   # tied initial otsu / not converged or NaN: counted in model()
+    ints, D, delta, lo, hi = _rc_args(case)
+    its = [_fr(q) for q in iters]
+    margin = min(abs(Fraction(a) - q) for q in its for a in ints)
+    if margin <= Fraction(D, 10 ** 9):
+        return None                                   # an iterate (nearly) coincides with a data value: counted
+    exp = math.exp(lo + (hi - lo) * float(_fr(res[0]) / D))
+    if abs(t - exp) > 2e-4 * abs(exp):
+        return "Ridler-Calvard: implementation %r, model %r after %d iterates" % (t, exp, len(its))
+    return None
+
+
 def _cmp_body(case, out, m):
     if _bad(out):
         return "%s reference case raised/crashed: %s" % (case["fn"], str(out)[:200])
@@ -910,16 +984,14 @@ def _cmp_body(case, out, m):
             return "robust background (degenerate data): implementation %r, expected %r" % (t, float(exp))
     else:
         if min(v) == max(v):
-            if Fraction(t) != Fraction(v[0], sc):
-                return "MCT (constant data): implementation %r, expected %r" % (t, v[0] / sc)
+            if Fraction(t) != Fraction(v[0], sc) or len(m) != 1 or _fr(m[0]) != v[0]:
+                return "MCT (constant data): implementation %r, model %s, expected %r" % (t, m, v[0] / sc)
         else:
-            mn, mx, k, best = m[0], m[1], m[2], _fr(m[3])
-            second = None if m[4] == [] else _fr(m[4][0])
-            if second is not None and best - second <= Fraction(1, 10 ** 6) * max(best, Fraction(1, 10 ** 12)):
-                return None                                   # (nearly) tied arg-max; counted in check()
-            exp = Fraction(mn, sc) + Fraction(k) * Fraction(mx - mn, sc) / (case["bins"] - 1)
+            if _mct_tied(m):
+                return None                                   # (nearly) tied arg-max; counted in model()
+            exp = _fr(m[0]) / sc
             if abs(Fraction(t) - exp) > Fraction(1, 10 ** 12) * max(abs(exp), Fraction(1, sc)):
-                return "MCT: implementation %r, reference %r (bin %d of %d)" % (t, float(exp), k, case["bins"])
+                return "MCT: implementation %r, model %r (%d bins)" % (t, float(exp), case["bins"])
     return None
 
 
@@ -938,6 +1010,8 @@ def compare(case, out, m):
         return None
     if case["fn"] in ("rob", "mct"):
         return _cmp_body(case, out, m)
+    if case["fn"] == "rc":
+        return _cmp_rc(case, out, m)
     if case["fn"] == "thr":
         if _bad(out):
             return "implementation crashed: %s" % (str(out)[:300],)
@@ -1017,7 +1091,7 @@ def check(ctx, cases, outs):
                 res[k] = ("S1 non-interference: scrambling the %d masked-out pixels of a %dx%d image changed the %s threshold "
                           "(%r vs %r)" % (o["n_out"], c["H"], c["W"], c["method"], o["values"][0], o["values"][2]))
             continue
-        if c["fn"] in ("rob", "mct"):
+        if c["fn"] in ("rob", "mct", "rc"):
             if _bad(o):
                 res[k] = "%s raised/crashed on plain data: %s" % (c["fn"], str(o)[:200])
             elif o["t"] != o["t_masked"] and not (o["t"] != o["t"] and o["t_masked"] != o["t_masked"]):
@@ -1206,7 +1280,7 @@ def nontrivial(case, out):
         return False
     if case["fn"] == "big":
         return True
-    if case["fn"] in ("rob", "mct"):
+    if case["fn"] in ("rob", "mct", "rc"):
         return len(set(case["ints"])) >= 3
     return len(set(case["ints"])) >= 3
 
@@ -1260,7 +1334,7 @@ def search_cases(ctx, rnd):
 def shrink_candidates(case):
     if case["fn"] in ("fmul", "mal", "big"):
         return
-    if case["fn"] in ("rob", "mct"):
+    if case["fn"] in ("rob", "mct", "rc"):
         v = case["ints"]
         if len(v) > 3:
             h = len(v) // 2
@@ -1319,24 +1393,33 @@ def shrink_candidates(case):
 
 MANIFEST = {
     "level_text": (
-        "Machine-checked proof (Coq 8.16) about the body of get_threshold REGENERATED from threshold.py on every run "
-        "(Python-ast translator into a small statement language with an interpreter): for every product function, "
-        "modifier, raw threshold, correction factor and range the global threshold lies in the range "
-        "(global_in_range) and every non-sentinel local threshold lies in the range and in the band "
-        "[g*0.7, g*1.5] (local_in_band, local_in_band_exact); the band literals of the source are the "
-        "specification's doubles (band_consts); every read of `image` in the twelve functions that receive "
-        "(image, mask) is mask-respecting (access_crop_first, regenerated) and crop-first methods cannot "
-        "distinguish images agreeing on the mask, through adaptive blocks and the per-object loop "
-        "(crop_first_noninterference*); the two-class Otsu cut over Q is invariant under permutation and NaN "
-        "insertion and is a mean of two data values (otsu_*). Tied to the code by exact comparison of "
-        "get_threshold's (local, global) with the extracted interpreter fed with the raw thresholds of the staged "
-        "callees (binary64 product modelled exactly), and by evaluating the verified checker, two-run "
-        "non-interference, determinism, bracket and Otsu invariances on the implementation."),
+        "Machine-checked proof (Coq 8.16, 31 theorems, all closed under the global context) about models REGENERATED from "
+        "threshold.py on every run: get_threshold is evaluated symbolically into the terms of its two results (robust to "
+        "behaviour-preserving refactorings) and proved equal to the specified closed form (get_threshold_closed_form); for every "
+        "product, modifier, raw threshold, correction factor and range the global threshold lies in the range (global_in_range) "
+        "and every non-sentinel local threshold in the range and the band [g*0.7, g*1.5], for the exact product, for binary64 "
+        "arithmetic (fmul_band_bracket, local_in_band_binary64) and for float32 arrays modulo the stored rounding; band "
+        "literals, access shapes of the 12 functions taking (image, mask), random-stream seeding, the Background / Kapur value "
+        "formulas and the RobustBackground defaults are regenerated facts (band_consts, access_crop_first, "
+        "random_streams_seeded, background_value_range, kapur_midpoint_range, body_methods_crop_first); crop-first methods "
+        "cannot distinguish images agreeing on the mask, through adaptive blocks and the per-object loop "
+        "(crop_first_noninterference*), and the per-object loop as written meets the per-pixel specification "
+        "(per_object_loop_meets_spec, crop_window_equiv); executable exact models tied to the code by correspondence: two-class "
+        "Otsu (permutation / NaN / affine invariance, bracket), Ridler-Calvard loop and maximum-correlation threshold (bracket for "
+        "ALL inputs: rc_model_bracket, mct_model_bracket), RobustBackground trimming (robust_mean_range), adaptive block geometry "
+        "in binary64 (finite sweep + refutation of 'blocks tile the image'). Tied to the code by exact comparison of "
+        "get_threshold's (local, global) with the extracted interpreter AND the closed form fed with the raw thresholds of the "
+        "staged callees, by extracted verified checkers on the raw per-object array (every pixel) and the adaptive block values / "
+        "partition / spline inputs and output, by dispatch / dtype / mask=None clauses, two-run non-interference, determinism, "
+        "same-process and fresh-process history replays, bracket and Otsu invariances on the implementation."),
     "level_note": (
-        "Trusted: Coq kernel + vm_compute; extraction (ExtrOcamlBasic only) and the S-expression driver; the Python "
-        "harness and the ast translator; NumPy/SciPy. Modelled, not verified: the numerical bodies of the seven "
-        "methods, the spline, log/exp (they enter as measured raw thresholds); floating-point Otsu is compared with "
-        "its Q model at 1e-9 on well-separated dyadic data."),
-    "technique": "Coq proof over a regenerated program + exact differential correspondence + verified checker on outputs",
+        "Trusted: Coq kernel + vm_compute; extraction (ExtrOcamlBasic only) and the S-expression driver; the Python harness and the "
+        "ast translators (symbolic evaluator, access / random-stream / size-threshold / formula passes); NumPy/SciPy "
+        "(RectBivariateSpline, linspace, find_objects contract). Modelled, not verified: the numerical bodies of MoG, Kapur and "
+        "Background beyond the regenerated formulas (relational clauses only); log/exp around the Ridler-Calvard loop and in Otsu's "
+        "wrapper; floating-point Otsu / MCT / RobustBackground / Ridler-Calvard are compared with their exact models at stated "
+        "tolerances on dyadic data, ill-conditioned arg-min/arg-max cases excluded and counted. otsu3/entropy/entropy3 values and "
+        "otsu with non-default min/max/bins have invariance clauses only."),
+    "technique": "Coq proof over regenerated programs/formulas + exact differential correspondence + verified checkers on outputs",
     "design_ref": "DESIGN.md section 7, C11",
 }
